@@ -1,18 +1,110 @@
-(* C17 - the delete oracle that is run over implementation traces returns "ok" on the delete steps of the
-   model: refused / failed deletes, and successful deletes of an object without dependents. *)
-From Icv Require Import Base.Tac Cw.CwModel Cw.CwTxn Cw.CwStrProofs Cw.CwTxnProofs Cw.CwCascadeProofs.
+(* C17 - the oracles that are run over implementation traces return "ok" on every step of the model:
+   create (failure / success under the requested name), delete refused / failed, delete successful -
+   plain AND cascading -, each with the file tree (names and contents) of the whole package. *)
+From Icv Require Import Base.Tac Facts.Facts_c17 Cw.CwFacts Cw.CwModel Cw.CwTxn Cw.CwStrProofs Cw.CwTxnProofs Cw.CwCascadeProofs Cw.CwRemovalProofs.
 From Coq Require Import NArith.
 Local Open Scope N_scope.
 
-(* what the glue computes from the tracked (type, name) pairs; [isdep] marks the tracked dependents of the target *)
-Definition cw_mk_dobs (tracked : list cw_key) (isdep : cw_key -> bool) (st st' : cw_store) (k : cw_key)
-           (cascade : bool) (r : cw_res) : cw_dobs :=
-  {| db_res := r; db_cascade := cascade; db_pre := cw_flags_of st k; db_post := cw_flags_of st' k;
-     db_nobj_pre := N.of_nat (length (cs_objs st)); db_nobj_post := N.of_nat (length (cs_objs st'));
-     db_nfiles_pre := N.of_nat (length (cs_files st)); db_nfiles_post := N.of_nat (length (cs_files st'));
+Lemma cw_flags_eqb_refl f : cw_flags_eqb f f = true.
+Proof. destruct f as [[] [] [] [] []]; reflexivity. Qed.
+
+Lemma cw_ftree_eqb_refl t : cw_ftree_eqb t t = true.
+Proof.
+  induction t as [|x t IH]; [reflexivity|]. cbn [cw_ftree_eqb]. unfold cw_feqb. rewrite cw_keq_refl, cw_beq_refl, IH. reflexivity.
+Qed.
+
+(* ---------------------------------------------------------------- create *)
+(* what the glue computes from two model states; [exp] = the digest of the generated text, when the glue has one *)
+Definition cw_mk_cobs (tracked : list cw_key) (st st' : cw_store) (k : cw_key) (r : cw_res) (exp : option cw_bytes) : cw_cobs :=
+  {| cb_ok := match r with CwrOk => true | _ => false end;
+     cb_pre := cw_flags_of st k; cb_post := cw_flags_of st' k;
+     cb_nobj_pre := N.of_nat (length (cs_objs st)); cb_nobj_post := N.of_nat (length (cs_objs st'));
+     cb_nfiles_pre := N.of_nat (length (cs_files st)); cb_nfiles_post := N.of_nat (length (cs_files st'));
+     cb_globals_same := true; cb_others_same := true; cb_rest_same := true;
+     cb_key := k; cb_tree_pre := cw_ftree_of tracked st; cb_tree_post := cw_ftree_of tracked st'; cb_content := exp |}.
+
+Lemma cw_fget_cons_same k c l : cw_fget k ((k, c) :: l) = Some c.
+Proof. unfold cw_fget. cbn [find fst]. rewrite cw_keq_refl. reflexivity. Qed.
+Lemma cw_fget_cons_other k k' c l : cw_keq k' k = false -> cw_fget k' ((k, c) :: l) = cw_fget k' l.
+Proof. intros H. unfold cw_fget. cbn [find fst]. rewrite H. reflexivity. Qed.
+
+(* the tree after adding the file of a key that had none: the old tree plus exactly that entry *)
+Lemma cw_ftree_add st st' k c : cs_files st' = (k, c) :: cs_files st -> cw_fget k (cs_files st) = None -> forall tracked,
+  cw_fremove k (cw_ftree_of tracked st') = cw_ftree_of tracked st.
+Proof.
+  intros Hf Hn. unfold cw_ftree_of. rewrite Hf. induction tracked as [|x l IH]; [reflexivity|]. cbn [flat_map].
+  unfold cw_fremove in *. rewrite filter_app, IH. f_equal.
+  destruct (cw_keq x k) eqn:E.
+  - apply cw_keq_eq in E. subst x. rewrite cw_fget_cons_same, Hn. cbn [filter fst]. rewrite cw_keq_refl. reflexivity.
+  - rewrite (cw_fget_cons_other k x c (cs_files st) E). destruct (cw_fget x (cs_files st)); [|reflexivity].
+    cbn [filter fst]. rewrite cw_keq_sym, E. reflexivity.
+Qed.
+
+Lemma cw_fget_ftree st k : forall tracked,
+  cw_fget k (cw_ftree_of tracked st) = if cw_kmem k tracked then cw_fget k (cs_files st) else None.
+Proof.
+  unfold cw_ftree_of. induction tracked as [|x l IH]; [reflexivity|]. cbn [flat_map cw_kmem existsb]. fold (cw_kmem k l).
+  destruct (cw_keq k x) eqn:E; cbn [orb].
+  - apply cw_keq_eq in E. subst x. destruct (cw_fget k (cs_files st)) as [d|] eqn:G; cbn [app].
+    + apply cw_fget_cons_same.
+    + rewrite IH. destruct (cw_kmem k l); reflexivity.
+  - destruct (cw_fget x (cs_files st)); cbn [app]; [rewrite (cw_fget_cons_other x k _ _ E)|]; exact IH.
+Qed.
+Lemma cw_fget_ftree_in st k tracked : In k tracked -> cw_fget k (cw_ftree_of tracked st) = cw_fget k (cs_files st).
+Proof. intros H. rewrite cw_fget_ftree. apply cw_kmem_in in H. rewrite H. reflexivity. Qed.
+
+Lemma cw_fget_none_fmem k l : cw_fmem k l = false -> cw_fget k l = None.
+Proof. intros H. rewrite cw_fget_fmem in H. destruct (cw_fget k l); [discriminate|reflexivity]. Qed.
+
+(* on every create the model can perform - failure, or success under the requested name - the oracle returns 0,
+   INCLUDING its file-tree part: failure => same tree; success => exactly the target's file is new and holds [c] *)
+Theorem cw_oracle_accepts_create tracked st ty full nc c o st' r :
+  cw_inv st -> In (ty, full) tracked -> cw_create st ty full nc c o = (st', r) ->
+  (r = CwrFail \/ exists deps, o = CwoOk full deps) ->
+  cw_orc_create nc (cw_mk_cobs tracked st st' (ty, full) r (Some c)) = 0.
+Proof.
+  intros Hi Ht Hc Hcase.
+  assert (Fail : forall s, cw_orc_create nc (cw_mk_cobs tracked s s (ty, full) CwrFail (Some c)) = 0).
+  { intros s. unfold cw_orc_create, cw_orc_files_create, cw_mk_cobs. cbn. rewrite cw_flags_eqb_refl, !N.eqb_refl, cw_ftree_eqb_refl. reflexivity. }
+  destruct Hcase as [->|(deps & ->)].
+  - apply cw_create_fail_unchanged in Hc; [|assumption]. subst st'. apply Fail.
+  - destruct r.
+    + destruct (cw_create_ok_complete st ty full nc c full deps st' Hi Hc (cw_beq_refl full)) as (Hpre & Hpost & Ho & Hfiles).
+      assert (Hnf : cw_fget (ty, full) (cs_files st) = None).
+      { apply cw_fget_none_fmem. destruct (cw_fmem (ty, full) (cs_files st)) eqn:E; [|reflexivity]. destruct (Hi _ E) as (x & Hx). congruence. }
+      unfold cw_orc_create, cw_mk_cobs. cbn [cb_globals_same cb_others_same cb_rest_same cb_ok cb_pre cb_post
+        cb_nobj_pre cb_nobj_post cb_nfiles_pre cb_nfiles_post andb negb].
+      rewrite Hpost, Ho, Hfiles. cbn [fl_obj fl_active fl_runtime fl_file fl_item length andb].
+      unfold cw_flags_of at 1. rewrite Hpre. cbn [fl_obj negb].
+      replace (N.of_nat (S (length (cs_objs st))) =? N.of_nat (length (cs_objs st)) + 1) with true by (symmetry; apply N.eqb_eq; lia).
+      replace (N.of_nat (S (length (cs_files st))) =? N.of_nat (length (cs_files st)) + 1) with true by (symmetry; apply N.eqb_eq; lia).
+      assert (Hfc : cw_orc_files_create
+         {| cb_ok := true; cb_pre := cw_flags_of st (ty, full); cb_post := cw_flags_of st' (ty, full);
+            cb_nobj_pre := N.of_nat (length (cs_objs st)); cb_nobj_post := N.of_nat (length (cs_objs st'));
+            cb_nfiles_pre := N.of_nat (length (cs_files st)); cb_nfiles_post := N.of_nat (length (cs_files st'));
+            cb_globals_same := true; cb_others_same := true; cb_rest_same := true;
+            cb_key := (ty, full); cb_tree_pre := cw_ftree_of tracked st; cb_tree_post := cw_ftree_of tracked st'; cb_content := Some c |} = 0).
+      { unfold cw_orc_files_create. cbn [cb_ok cb_key cb_tree_pre cb_tree_post cb_content].
+        rewrite (cw_fget_ftree_in st (ty, full) tracked Ht), Hnf.
+        rewrite (cw_fget_ftree_in st' (ty, full) tracked Ht), Hfiles, cw_fget_cons_same.
+        rewrite (cw_ftree_add st st' (ty, full) c Hfiles Hnf tracked), cw_ftree_eqb_refl, cw_beq_refl. reflexivity. }
+      destruct nc; cbn [orb andb]; exact Hfc.
+    + apply cw_create_fail_unchanged in Hc; [|assumption]. subst st'. apply Fail.
+    + exfalso. unfold cw_create, cw_create_m in Hc. destruct (if cw_src_precheck_object then _ else _); [inversion Hc|].
+      cbn [cs_objs cs_items cs_files] in Hc.
+      match type of Hc with context [cw_find (ty, full) ?s] => destruct (cw_find (ty, full) s) end; [inversion Hc|].
+      match type of Hc with context [negb ?b] => destruct b end; cbn [negb] in Hc; [|inversion Hc].
+      destruct (cw_beq full full); inversion Hc.
+Qed.
+
+(* ---------------------------------------------------------------- delete *)
+Definition cw_deps_of (st : cw_store) (x : cw_key) : list cw_key := match cw_find x st with Some o => co_deps o | None => [] end.
+Definition cw_mk_dent (st st' : cw_store) (x : cw_key) : cw_dent :=
+  {| de_key := x; de_pre := cw_flags_of st x; de_post := cw_flags_of st' x; de_deps := cw_deps_of st x |}.
+Definition cw_mk_dobs (tracked : list cw_key) (st st' : cw_store) (k : cw_key) (cascade : bool) (r : cw_res) : cw_dobs :=
+  {| db_res := r; db_cascade := cascade; db_key := k; db_ents := map (cw_mk_dent st st') tracked;
      db_globals_same := true; db_others_same := true;
-     db_nondep_same := forallb (fun k' => cw_keq k k' || isdep k' || cw_flags_eqb (cw_flags_of st k') (cw_flags_of st' k')) tracked;
-     db_dep_changed := existsb (fun k' => negb (cw_keq k k') && isdep k' && negb (cw_flags_eqb (cw_flags_of st k') (cw_flags_of st' k'))) tracked |}.
+     db_tree_pre := cw_ftree_of tracked st; db_tree_post := cw_ftree_of tracked st' |}.
 
 Lemma cw_delete_not_ok_same st k c st' r : cw_delete st k c = (st', r) -> r <> CwrOk -> st' = st.
 Proof.
@@ -22,77 +114,217 @@ Proof.
   apply (f_equal snd) in H. cbn [snd] in H. congruence.
 Qed.
 
-Theorem cw_oracle_accepts_delete_refused tracked isdep st k c st' r :
+(* refused (static / dependents without cascade) or no such object: nothing changes, the oracle accepts *)
+Theorem cw_oracle_accepts_delete_refused tracked st k c st' r :
   cw_delete st k c = (st', r) -> r <> CwrOk ->
-  cw_orc_delete (cw_mk_dobs tracked isdep st st' k c r) = 0.
+  cw_orc_delete (cw_mk_dobs tracked st st' k c r) = 0.
 Proof.
   intros H Hr. pose proof (cw_delete_not_ok_same st k c st' r H Hr) as ->.
-  unfold cw_orc_delete, cw_mk_dobs. cbn [db_globals_same db_others_same db_res db_pre db_post db_nondep_same
-    db_dep_changed db_nobj_pre db_nobj_post db_nfiles_pre db_nfiles_post andb negb].
-  assert (A : forallb (fun k' => cw_keq k k' || isdep k' || cw_flags_eqb (cw_flags_of st k') (cw_flags_of st k')) tracked = true).
-  { apply forallb_forall. intros x _. rewrite cw_flags_eqb_refl, orb_true_r. reflexivity. }
-  assert (B : existsb (fun k' => negb (cw_keq k k') && isdep k' && negb (cw_flags_eqb (cw_flags_of st k') (cw_flags_of st k'))) tracked = false).
-  { induction tracked as [|x l IH]; [reflexivity|]. cbn [existsb]. rewrite cw_flags_eqb_refl. cbn [negb].
-    rewrite andb_false_r. cbn [orb]. apply IH. apply forallb_forall. intros y _. rewrite cw_flags_eqb_refl, orb_true_r. reflexivity. }
-  rewrite A, B, cw_flags_eqb_refl, !N.eqb_refl. destruct r; try reflexivity. congruence.
+  unfold cw_orc_delete, cw_mk_dobs. cbn [db_globals_same db_others_same db_res db_ents db_tree_pre db_tree_post andb negb].
+  assert (A : forallb (fun e => cw_flags_eqb (de_pre e) (de_post e)) (map (cw_mk_dent st st) tracked) = true).
+  { apply forallb_forall. intros e He. apply in_map_iff in He as (x & <- & _). apply cw_flags_eqb_refl. }
+  rewrite A, cw_ftree_eqb_refl. destruct r; try reflexivity. congruence.
 Qed.
 
-Lemma cw_kmem_kremove_other k k' l : cw_keq k k' = false -> cw_kmem k' (cw_kremove k l) = cw_kmem k' l.
+Definition cw_pres (st : cw_store) (x : cw_key) : bool := match cw_find x st with Some _ => true | None => false end.
+
+Lemma cw_pres_flags st x : fl_obj (cw_flags_of st x) = cw_pres st x.
+Proof. unfold cw_flags_of, cw_pres. destruct (cw_find x st); reflexivity. Qed.
+
+Lemma cw_desc_last st k x : cw_desc st k x -> x = k \/ exists c, cw_desc st k c /\ In x (cw_children c st).
 Proof.
-  intros Hne. unfold cw_kmem, cw_kremove. induction l as [|x l IH]; [reflexivity|]. cbn [filter existsb].
-  destruct (cw_keq k x) eqn:E1; cbn [negb].
-  - destruct (cw_keq k' x) eqn:E2; [|exact IH].
-    apply cw_keq_eq in E1, E2. subst. rewrite cw_keq_refl in Hne. discriminate.
-  - cbn [existsb]. rewrite IH. reflexivity.
+  induction 1 as [k|k c x Hc Hd IH]; [left; reflexivity|]. right. destruct IH as [->|(c' & Hd' & Hx)].
+  - exists k. split; [constructor|assumption].
+  - exists c'. split; [eapply cw_desc_step; eauto|assumption].
 Qed.
 
-Lemma cw_kremove_len k l : NoDup l -> In k l -> (length (cw_kremove k l) + 1 = length l)%nat.
+Lemma cw_desc_present st k x : cw_find k st <> None -> cw_desc st k x -> cw_find x st <> None.
+Proof. intros Hk Hd. induction Hd as [k|k c x Hc Hd IH]; [assumption|]. apply IH. eapply cw_children_present; eauto. Qed.
+
+Lemma cw_child_dep st c x o : cw_unique st -> In x (cw_children c st) -> cw_find x st = Some o -> cw_kmem c (co_deps o) = true.
 Proof.
-  induction l as [|x l IH]; intros Hn Hin; [contradiction|]. inversion Hn; subst. cbn [cw_kremove filter].
-  destruct (cw_keq k x) eqn:E; cbn [negb length].
-  - apply cw_keq_eq in E. subst x. fold (cw_kremove k l). rewrite cw_kremove_notin; [lia|].
-    destruct (cw_kmem k l) eqn:M; [|reflexivity]. exfalso. apply H1.
-    unfold cw_kmem in M. apply existsb_exists in M as (y & Hy & Ey). apply cw_keq_eq in Ey. subst. assumption.
-  - fold (cw_kremove k l). destruct Hin as [->|Hin]; [rewrite cw_keq_refl in E; discriminate|].
-    rewrite <- (IH H2 Hin). lia.
+  intros Hu Hx Hf. unfold cw_children in Hx. apply in_map_iff in Hx as (o' & Hk & Hin). apply filter_In in Hin as [Hin Hd].
+  apply cw_find_in in Hf as [Hin2 Hk2]. assert (o' = o) as ->; [|exact Hd].
+  apply (cw_nodup_key_inj (cs_objs st)); [exact Hu|assumption|assumption|congruence].
 Qed.
 
-Lemma cw_oremove_keys k l : map co_key (cw_oremove k l) = cw_kremove k (map co_key l).
+Lemma cw_dep_child st d x o : cw_find x st = Some o -> cw_kmem d (co_deps o) = true -> In x (cw_children d st).
 Proof.
-  induction l as [|x l IH]; [reflexivity|]. cbn [cw_oremove cw_kremove filter map].
-  destruct (cw_keq k (co_key x)); cbn [negb map]; [exact IH|]. f_equal. exact IH.
+  intros Hf Hd. apply cw_find_in in Hf as [Hin Hk]. unfold cw_children. apply in_map_iff. exists o. split; [exact Hk|].
+  apply filter_In. split; assumption.
 Qed.
 
-(* a successful delete of a runtime object without dependents (cascade or not): exactly one object and one
-   file less, the target gone, every other tracked entry untouched *)
-Theorem cw_oracle_accepts_delete_plain tracked isdep st k c o :
-  cw_unique st -> NoDup (cs_files st) -> In k (cs_files st) ->
-  cw_find k st = Some o -> co_runtime o = true -> cw_children k st = [] ->
-  cw_orc_delete (cw_mk_dobs tracked isdep st (fst (cw_delete st k c)) k c CwrOk) = 0.
+(* the tree after removing the set R: the old tree without the entries of R *)
+Lemma cw_ftree_rm R st (G : list cw_key) : cw_finv st -> forall l,
+  (forall x, In x l -> cw_pres st x = true -> cw_kmem x G = cw_kmem x R) ->
+  cw_ftree_of l (cw_rm R st) = filter (fun f => negb (cw_kmem (fst f) G)) (cw_ftree_of l st).
 Proof.
-  intros Hu Hnf Hinf Hf Hr Hc. rewrite (cw_delete_plain st k c o Hf Hr Hc). cbn [fst].
-  set (st' := {| cs_objs := cw_oremove k (cs_objs st); cs_items := cw_kremove k (cs_items st); cs_files := cw_kremove k (cs_files st) |}).
-  assert (Hother : forall k', cw_keq k k' = false -> cw_flags_of st' k' = cw_flags_of st k').
-  { intros k' Hne. unfold cw_flags_of, cw_find, st'. cbn [cs_objs cs_items cs_files].
-    rewrite (cw_find_oremove_other k k' _ Hne), !(cw_kmem_kremove_other k k' _ Hne). reflexivity. }
-  assert (Hpost : cw_flags_of st' k = cw_flags_none).
-  { unfold cw_flags_of, cw_find, st'. cbn [cs_objs cs_items cs_files]. rewrite cw_find_oremove, !cw_kmem_kremove. reflexivity. }
-  assert (Hpre : fl_runtime (cw_flags_of st k) = true) by (unfold cw_flags_of; rewrite Hf; exact Hr).
-  assert (A : forallb (fun k' => cw_keq k k' || isdep k' || cw_flags_eqb (cw_flags_of st k') (cw_flags_of st' k')) tracked = true).
-  { apply forallb_forall. intros x _. destruct (cw_keq k x) eqn:E; [reflexivity|].
-    rewrite (Hother x E), cw_flags_eqb_refl, orb_true_r. reflexivity. }
-  assert (B : existsb (fun k' => negb (cw_keq k k') && isdep k' && negb (cw_flags_eqb (cw_flags_of st k') (cw_flags_of st' k'))) tracked = false).
-  { clear A. induction tracked as [|x l IH]; [reflexivity|]. cbn [existsb]. rewrite IH, orb_false_r.
-    destruct (cw_keq k x) eqn:E; [reflexivity|]. rewrite (Hother x E), cw_flags_eqb_refl. cbn [negb]. apply andb_false_r. }
-  assert (Lo : (length (cs_objs st') + 1 = length (cs_objs st))%nat).
-  { unfold st'. cbn [cs_objs]. rewrite <- (map_length co_key (cw_oremove k (cs_objs st))), cw_oremove_keys.
-    rewrite <- (map_length co_key (cs_objs st)). apply cw_kremove_len; [exact Hu|].
-    apply cw_find_in in Hf as [Hin Hk]. rewrite <- Hk. apply in_map. assumption. }
-  assert (Lf : (length (cs_files st') + 1 = length (cs_files st))%nat) by (apply cw_kremove_len; assumption).
-  unfold cw_orc_delete, cw_mk_dobs. cbn [db_globals_same db_others_same db_res db_pre db_post db_nondep_same
-    db_dep_changed db_nobj_pre db_nobj_post db_nfiles_pre db_nfiles_post db_cascade andb negb].
-  rewrite A, B, Hpost, Hpre. cbn [negb fl_obj fl_item fl_file cw_flags_none orb].
-  replace (N.of_nat (length (cs_objs st')) + 1 =? N.of_nat (length (cs_objs st))) with true by (symmetry; apply N.eqb_eq; lia).
-  replace (N.of_nat (length (cs_files st')) + 1 =? N.of_nat (length (cs_files st))) with true by (symmetry; apply N.eqb_eq; lia).
-  destruct c; reflexivity.
+  intros Hi. unfold cw_ftree_of, cw_rm. cbn [cs_files]. induction l as [|x l IH]; intros HG; [reflexivity|].
+  cbn [flat_map]. rewrite filter_app, IH by (intros y Hy; apply HG; right; exact Hy). f_equal.
+  rewrite (cw_fget_filter (fun k => negb (cw_kmem k R))). destruct (cw_fget x (cs_files st)) as [d|] eqn:E.
+  - assert (Hp : cw_pres st x = true).
+    { assert (Hm : cw_fmem x (cs_files st) = true) by (rewrite cw_fget_fmem, E; reflexivity).
+      destruct (Hi x Hm) as (o & Ho & _). unfold cw_pres. rewrite Ho. reflexivity. }
+    cbn [filter fst]. rewrite (HG x (or_introl eq_refl) Hp). destruct (cw_kmem x R); reflexivity.
+  - destruct (negb (cw_kmem x R)); reflexivity.
 Qed.
+
+(* EVERY successful delete of the model - plain or cascading, any acyclic dependency graph - is accepted by the
+   oracle that is run on implementation traces: target and exactly its transitive dependents are gone with their
+   items and files, every other tracked entry and every other file (name and content) is untouched.
+   Premises: invariants of the reachable states (cw_unique, cw_finv - both proved preserved), every object is
+   tracked by the script (true in the harness: objects only come into being through tracked operations), and
+   the depth premise of C17_delete_cascade_exact. *)
+Theorem cw_oracle_accepts_delete_ok tracked st k c st' :
+  cw_unique st -> cw_finv st -> (forall x, cw_find x st <> None -> In x tracked) ->
+  cw_depth st k (S (length (cs_objs st))) ->
+  cw_delete st k c = (st', CwrOk) ->
+  cw_orc_delete (cw_mk_dobs tracked st st' k c CwrOk) = 0.
+Proof.
+  intros Hu Hi Htr Hdep Hd.
+  destruct (cw_delete_ok_rm st k c st' Hi Hd) as (R & -> & HR & _).
+  (* the shape of a successful delete *)
+  assert (Hshape : exists o, cw_find k st = Some o /\ co_runtime o = true /\ (c = true \/ cw_children k st = []) /\
+            cw_delete st k true = (cw_rm R st, CwrOk)).
+  { revert Hd. unfold cw_delete. destruct (cw_find k st) as [o|]; [|intros H; inversion H].
+    destruct (co_runtime o) eqn:Hr; cbn [negb]; [|intros H; inversion H].
+    destruct c; cbn [negb andb]; intros H.
+    - exists o. repeat split; auto.
+    - destruct (cw_children k st) eqn:Hc; cbn [negb] in H; [|inversion H]. exists o. repeat split; auto. }
+  destruct Hshape as (o & Hf & Hr & Hcc & Htrue).
+  destruct (cw_delete_cascade_exact st k o Hu Hf Hr Hdep) as (st2 & E2 & _ & Hex). rewrite Htrue in E2. inversion E2; subst st2; clear E2.
+  assert (Hkp : cw_find k st <> None) by congruence.
+  (* gone <-> removed <-> descendant, for objects of st *)
+  assert (Hgone : forall x, cw_pres st x = true -> (cw_kmem x R = true <-> cw_desc st k x)).
+  { intros x Hp. assert (Hx : cw_find x st <> None) by (unfold cw_pres in Hp; destruct (cw_find x st); [discriminate|discriminate Hp]).
+    rewrite <- (Hex x Hx), cw_find_rm. destruct (cw_kmem x R); split; intros H; try reflexivity; try discriminate.
+    exfalso. apply Hx. exact H. }
+  assert (HRp : forall x, cw_kmem x R = true -> cw_pres st x = true).
+  { intros x Hx. apply cw_kmem_in in Hx. specialize (HR x Hx). unfold cw_pres. destruct (cw_find x st); [reflexivity|congruence]. }
+  set (ents := map (cw_mk_dent st (cw_rm R st)) tracked).
+  assert (Hg : forall x, cw_de_gone (cw_mk_dent st (cw_rm R st) x) = cw_kmem x R).
+  { intros x. unfold cw_de_gone, cw_mk_dent. cbn [de_pre de_post]. rewrite !cw_pres_flags. unfold cw_pres at 2. rewrite cw_find_rm.
+    destruct (cw_kmem x R) eqn:M; [rewrite (HRp x M); reflexivity|]. fold (cw_pres st x). destruct (cw_pres st x); reflexivity. }
+  assert (HG : forall x, cw_kmem x (cw_gone_keys ents) = cw_kmem x tracked && cw_kmem x R).
+  { intros x. unfold cw_gone_keys, ents. clear - Hg. induction tracked as [|y l IH]; [reflexivity|].
+    cbn [map filter]. rewrite Hg. destruct (cw_kmem y R) eqn:M; cbn [map cw_kmem existsb de_key cw_mk_dent];
+      fold (cw_kmem x (map de_key (filter cw_de_gone (map (cw_mk_dent st (cw_rm R st)) l)))); fold (cw_kmem x l); rewrite IH.
+    - destruct (cw_keq x y) eqn:E; cbn [orb andb]; [|reflexivity]. apply cw_keq_eq in E. subst. rewrite M. reflexivity.
+    - destruct (cw_keq x y) eqn:E; cbn [orb andb]; [|reflexivity]. apply cw_keq_eq in E. subst. rewrite M.
+      rewrite andb_false_r. reflexivity. }
+  assert (HGp : forall x, cw_pres st x = true -> cw_kmem x (cw_gone_keys ents) = cw_kmem x R).
+  { intros x Hp. rewrite HG. assert (Hin : cw_kmem x tracked = true).
+    { apply cw_kmem_in. apply Htr. unfold cw_pres in Hp. destruct (cw_find x st); [discriminate|discriminate Hp]. }
+    rewrite Hin. reflexivity. }
+  assert (Hkt : In k tracked) by (apply Htr; exact Hkp).
+  assert (HkR : cw_kmem k R = true).
+  { apply Hgone; [unfold cw_pres; rewrite Hf; reflexivity|constructor]. }
+  unfold cw_orc_delete, cw_mk_dobs. cbn [db_globals_same db_others_same db_res db_ents db_key db_cascade db_tree_pre db_tree_post andb negb].
+  fold ents.
+  (* 22: the target is a runtime object *)
+  assert (C22 : existsb (fun e => cw_keq k (de_key e) && fl_runtime (de_pre e)) ents = true).
+  { apply existsb_exists. exists (cw_mk_dent st (cw_rm R st) k). split; [apply in_map; exact Hkt|].
+    cbn [de_key de_pre cw_mk_dent]. rewrite cw_keq_refl. unfold cw_flags_of. rewrite Hf. cbn [fl_runtime]. rewrite Hr. reflexivity. }
+  rewrite C22. cbn [negb].
+  (* 21: what is gone left nothing behind *)
+  assert (C21 : forallb (fun e => negb (cw_de_gone e) || cw_flags_eqb (de_post e) cw_flags_none) ents = true).
+  { apply forallb_forall. intros e He. apply in_map_iff in He as (x & <- & _). rewrite Hg.
+    destruct (cw_kmem x R) eqn:M; [|reflexivity]. cbn [negb orb de_post cw_mk_dent]. rewrite (cw_flags_rm_in x R st M). reflexivity. }
+  rewrite C21. cbn [negb].
+  rewrite (HGp k) by (unfold cw_pres; rewrite Hf; reflexivity). rewrite HkR. cbn [negb].
+  (* 23: everything else is untouched *)
+  assert (C23 : forallb (fun e => cw_de_gone e || cw_flags_eqb (de_pre e) (de_post e)) ents = true).
+  { apply forallb_forall. intros e He. apply in_map_iff in He as (x & <- & _). rewrite Hg.
+    destruct (cw_kmem x R) eqn:M; [reflexivity|]. cbn [orb de_pre de_post cw_mk_dent]. rewrite (cw_flags_rm_notin x R st M). apply cw_flags_eqb_refl. }
+  rewrite C23. cbn [negb].
+  (* 23: without cascade only the target *)
+  assert (C23b : negb c && negb (forallb (cw_keq k) (cw_gone_keys ents)) = false).
+  { destruct c; [reflexivity|]. cbn [negb andb]. destruct Hcc as [Hcc|Hcc]; [discriminate|].
+    assert (A : forallb (cw_keq k) (cw_gone_keys ents) = true); [|rewrite A; reflexivity].
+    apply forallb_forall. intros y Hy. apply cw_kmem_in in Hy. rewrite HG in Hy. apply andb_prop in Hy as [_ Hy].
+    apply (Hgone y (HRp y Hy)) in Hy. inversion Hy as [|k1 c1 x1 Hc1 _]; subst; [apply cw_keq_refl|]. rewrite Hcc in Hc1. contradiction. }
+  rewrite C23b.
+  (* 25: the closure, stated locally *)
+  assert (C25 : cw_orc_closure k ents = true).
+  { unfold cw_orc_closure. rewrite (HGp k) by (unfold cw_pres; rewrite Hf; reflexivity). rewrite HkR. cbn [andb].
+    apply andb_true_intro. split.
+    - apply forallb_forall. intros e He. apply in_map_iff in He as (x & <- & _). rewrite Hg. cbn [de_pre de_deps cw_mk_dent].
+      rewrite cw_pres_flags. destruct (cw_pres st x) eqn:Hp; [|reflexivity]. cbn [negb orb].
+      destruct (cw_kmem x R) eqn:M; [reflexivity|]. cbn [orb].
+      destruct (existsb (fun d => cw_kmem d (cw_gone_keys ents)) (cw_deps_of st x)) eqn:Ex; [|reflexivity].
+      exfalso. apply existsb_exists in Ex as (d & Hd1 & Hd2). rewrite HG in Hd2. apply andb_prop in Hd2 as [_ Hd2].
+      pose proof (proj1 (Hgone d (HRp d Hd2)) Hd2) as Hdesc.
+      unfold cw_deps_of in Hd1. unfold cw_pres in Hp. destruct (cw_find x st) as [ox|] eqn:Hfx; [|discriminate].
+      assert (Hch : In x (cw_children d st)) by (apply (cw_dep_child st d x ox Hfx); apply cw_kmem_in; exact Hd1).
+      assert (Hdx : cw_desc st k x) by (eapply cw_desc_trans; [exact Hdesc|eapply cw_desc_step; [exact Hch|constructor]]).
+      assert (Hpx : cw_pres st x = true) by (unfold cw_pres; rewrite Hfx; reflexivity).
+      apply (Hgone x Hpx) in Hdx. congruence.
+    - apply forallb_forall. intros e He. apply in_map_iff in He as (x & <- & _). rewrite Hg. cbn [de_key de_deps cw_mk_dent].
+      destruct (cw_kmem x R) eqn:M; [|reflexivity]. cbn [negb orb].
+      destruct (cw_keq k x) eqn:E; [reflexivity|]. cbn [orb].
+      pose proof (proj1 (Hgone x (HRp x M)) M) as Hdesc. apply cw_desc_last in Hdesc as [->|(c0 & Hc0 & Hx)]; [rewrite cw_keq_refl in E; discriminate|].
+      pose proof (HRp x M) as Hp. unfold cw_pres in Hp. destruct (cw_find x st) as [ox|] eqn:Hfx; [|discriminate].
+      pose proof (cw_child_dep st c0 x ox Hu Hx Hfx) as Hdep0.
+      unfold cw_deps_of. rewrite Hfx. apply existsb_exists. exists c0. split; [apply cw_kmem_in; exact Hdep0|].
+      assert (Hc0p : cw_pres st c0 = true).
+      { pose proof (cw_desc_present st k c0 Hkp Hc0) as Hn. unfold cw_pres. destruct (cw_find c0 st); [reflexivity|congruence]. }
+      rewrite (HGp c0 Hc0p). apply (Hgone c0 Hc0p). exact Hc0. }
+  rewrite C25. cbn [negb].
+  (* 24: the files that are gone are exactly the files of what is gone; names and contents of the rest as before *)
+  rewrite (cw_ftree_rm R st (cw_gone_keys ents) Hi tracked) by (intros x _ Hp; apply HGp; exact Hp).
+  rewrite cw_ftree_eqb_refl. reflexivity.
+Qed.
+
+(* ---------------------------------------------------------------- statements used by Properties_C17.v *)
+Lemma cw_all_or_nothing_files : forall tracked st ty full nc content o st',
+  cw_inv st -> cw_create st ty full nc content o = (st', CwrFail) -> cw_ftree_of tracked st' = cw_ftree_of tracked st.
+Proof. intros tracked st ty full nc content o st' Hi Hc. rewrite (cw_create_fail_unchanged st ty full nc content o st' Hi Hc). reflexivity. Qed.
+
+Lemma cw_file_invariant :
+  cw_finv cw_store0 /\
+  (forall st, cw_finv st -> cw_inv st) /\
+  (forall st ty full nc content o st' r, cw_finv st -> cw_create st ty full nc content o = (st', r) ->
+     (forall eff deps, o = CwoOk eff deps -> cw_beq eff full = true) -> cw_finv st') /\
+  (forall st k nc deps, cw_finv st -> cw_finv (cw_add_static st k nc deps)) /\
+  (forall st k c st' r, cw_finv st -> cw_delete st k c = (st', r) -> cw_finv st').
+Proof.
+  split; [intros k H; discriminate H|]. split; [exact cw_finv_inv|]. split; [|split; [exact cw_finv_static|exact cw_finv_delete]].
+  intros st ty full nc content o st' r Hi Hc. unfold cw_create in Hc. rewrite cw_precheck_fact in Hc. exact (cw_finv_create st ty full nc content o st' r Hi Hc).
+Qed.
+
+Lemma cw_delete_cascade_files : forall st k o st',
+  cw_unique st -> cw_finv st -> cw_find k st = Some o -> co_runtime o = true ->
+  cw_depth st k (S (length (cs_objs st))) -> cw_delete st k true = (st', CwrOk) ->
+  forall x, cw_find x st <> None ->
+    (cw_desc st k x -> cw_fget x (cs_files st') = None) /\
+    (~ cw_desc st k x -> cw_fget x (cs_files st') = cw_fget x (cs_files st)).
+Proof.
+  intros st k o st' Hu Hi Hf Hr Hd Hdel x Hx.
+  destruct (cw_delete_cascade_exact st k o Hu Hf Hr Hd) as (st2 & E2 & _ & Hex). rewrite Hdel in E2. inversion E2; subst st2; clear E2.
+  destruct (cw_delete_ok_rm st k true st' Hi Hdel) as (R & -> & _ & _).
+  specialize (Hex x Hx). rewrite cw_find_rm in Hex. unfold cw_rm. cbn [cs_files].
+  rewrite (cw_fget_filter (fun y => negb (cw_kmem y R))).
+  destruct (cw_kmem x R); cbn [negb]; split; intros H; try reflexivity.
+  - exfalso. apply H. apply Hex. reflexivity.
+  - exfalso. apply Hx. apply Hex. exact H.
+Qed.
+
+Lemma cw_facts_all :
+  cw_opt_is f_cw_ident_regex (fun r => r = cw_regex_src) /\
+  cw_opt_is f_cw_lexer_ident_regex (fun r => r = cw_lexer_regex_src) /\
+  cw_opt_is f_cw_keyword_test_first (fun b => b = true) /\
+  cw_opt_is f_cw_emit_string_quotes_escaped (fun b => b = true) /\
+  cw_opt_is f_cw_number_fixed6 (fun b => b = true) /\
+  cw_src_mode = CwMatch /\
+  cw_chunk_whole = true /\ cw_src_import_escaped = true /\ cw_src_name_exact = true /\ cw_src_number_roundtrip = true /\
+  cw_src_precheck_object = true /\ cw_opt_is f_cw_delete_helper_removes_file (fun b => b = true) /\
+  filter (fun k => negb (cw_mem k cw_writer_keywords)) cw_lexer_keywords =
+    [[100; 101; 98; 117; 103; 103; 101; 114]; [105; 110]] /\
+  forallb (fun k => cw_mem k cw_lexer_keywords) [cw_s_null; cw_s_true; cw_s_false; cw_s_object; cw_s_import; cw_s_ignore_on_error] = true.
+Proof.
+  destruct cw_facts as (A1 & A2 & A3 & A4 & A5 & A6 & A7 & A8 & A9 & A10 & A11).
+  split; [exact A1|]. split; [exact A2|]. split; [exact A3|]. split; [exact A4|]. split; [exact A5|]. split; [exact A6|].
+  split; [exact A7|]. split; [exact A8|]. split; [exact A9|]. split; [exact A10|].
+  split; [exact cw_precheck_fact|]. split; [reflexivity|]. exact A11.
+Qed.
+
